@@ -64,7 +64,7 @@ let parse_record toks =
 let legal_record = function
   | RFor (n, g, t, o) -> legal_for (nat_of_int g) (nat_of_int n) (t, nats o)
   | RRed (n, g, t) -> legal_reduce (nat_of_int g) (nat_of_int n) t
-  | RScan (n, _, ops) -> legal_scan (nat_of_int n) ops
+  | RScan (n, _, ops) -> legal_scan_inplace (nat_of_int n) ops   (* legal_scan + pre-scan before final scan *)
   | RInv (k, o) -> legal_invoke (nat_of_int k) (nats o)
   | RComb (k, s, o) -> legal_combinable (nat_of_int k) (nats s) (nats o)
   | RBad _ -> false
@@ -107,6 +107,12 @@ let run_case alg p1 p2 (x : int list) (y : int list) recs : int list option =
   | "sort_i32" | "sort_i64" ->
       (* signed integral keys: generic SortFunctor -> mergeSort with std::less (radix is unsigned-only since 1f3be2f4) *)
       (match merge_sort (fun (a : int) b -> a < b) nthr x with Some r -> Some r | None -> None)
+  | "lsb_radix" ->
+      (* details::LSB_radix_sort(input, tmp, n) on uint32 keys: flag, then BOTH buffers (tmp pre-filled with 2^32-1) *)
+      if List.exists (fun v -> v < 0) x then None else
+      let ((a, b), t) = lsb_radix_sort_buf (nat_of_int 4) zx (fun _ -> z_of_int 4294967295) in
+      let (inp, tmp) = if t then (b, a) else (a, b) in
+      Some ((if t then 1 else 0) :: List.map int_of_z (dump_fun inp n) @ List.map int_of_z (dump_fun tmp n))
   | "sort_u32" ->
       if List.exists (fun v -> v < 0) x then None else
       (match radix_sort nthr (nat_of_int 4) zx rtree with Some r -> Some (List.map int_of_z r) | None -> None)
@@ -121,6 +127,12 @@ let run_case alg p1 p2 (x : int list) (y : int list) recs : int list option =
   | "all_of" -> Some [if all_of_par (fun v -> v <> p1) x rtree then 1 else 0]
   | "incl_scan" ->
       let (_, o) = incl_scan_par zx (first_scan recs n) (fun _ -> z_of_int (-7)) in
+      Some (List.map int_of_z (dump_fun o n))
+  | "exclusive_scan-inplace" ->
+      let (_, o) = excl_scan_inplace (z_of_int (ident_of p2)) (op_of p2) zx (z_of_int p1) (first_scan recs n) in
+      Some (List.map int_of_z (dump_fun o n))
+  | "inclusive_scan-inplace" ->
+      let (_, o) = incl_scan_inplace zx (first_scan recs n) in
       Some (List.map int_of_z (dump_fun o n))
   | "excl_scan" ->
       let (_, o) = excl_scan_par (z_of_int (ident_of p2)) (op_of p2) zx (z_of_int p1) (first_scan recs n) (fun _ -> z_of_int (-7)) in
@@ -144,6 +156,10 @@ let run_case alg p1 p2 (x : int list) (y : int list) recs : int list option =
         | l -> l in
       (match unique_par (nat_of_int !maxbuf) sch zx with
        | Some r -> Some (List.length r :: List.map int_of_z r) | None -> None)
+  | "transform-inplace" ->
+      let xf = (fun i -> let k = int_of_nat i in z_of_int (if k < Array.length xa then xa.(k) else 0)) in
+      let (w, h) = fe_for_each (fun c -> z_of_int (3 * int_of_z c + p1)) in
+      Some (List.map int_of_z (dump_fun (par_for w h (nat_of_int n) fsched xf) n))
   | "for_each" | "for_each_n" | "transform" | "copy" | "copy_n" | "fill" | "sequence" | "gather" | "scatter" ->
       let nn = if alg = "gather" then List.length y else n in
       let ya = Array.of_list y in
